@@ -315,8 +315,61 @@ class WsHarness(object):
             o.value = (ws.unaccepted, ws.ready, ws.closed)
         return False
 
+    # -- a second, well-behaved connection on the same app ------------------------------
+    def setup_background(self, n_msgs, queue_profile=None):
+        h = self
+        self.bg_sent = ['x%d' % i for i in range(n_msgs)]
+        self.bg_got = []
+        self.bg_done = False
+        self.bg_exc = None
+
+        class BgResource(object):
+            async def on_websocket(self, req, ws):
+                await ws.accept()
+                try:
+                    while True:
+                        h.bg_got.append(await ws.receive_text())
+                except ferrors.WebSocketDisconnected:
+                    pass
+
+        self.app.add_route('/bg', BgResource())
+        events = [{'type': 'websocket.connect'}] + [{'type': 'websocket.receive', 'text': m} for m in self.bg_sent] \
+            + [{'type': 'websocket.disconnect', 'code': 1000}]
+        self.bg_monitor = WsMonitor(self.cfg.get('spec_version', '2.3'))
+        self.bg_scope = ws_scope(path='/bg', spec_version=self.cfg.get('spec_version', '2.3'))
+        self.bg_conn = Conn(self, 'websocket', self.bg_scope, events, self.bg_monitor,
+                            recv_suspends=self.cfg.get('recv_suspends', False),
+                            send_suspends=self.cfg.get('send_suspends', False), lost_mode='drop', name='bg')
+
+    async def bg_driver(self):
+        try:
+            await self.app(self.bg_scope, self.bg_conn.receive, self.bg_conn.send)
+        except asyncio.CancelledError:
+            raise
+        except Exception as ex:
+            self.bg_exc = ex
+        self.bg_done = True
+
     # -- driver ------------------------------------------------------------------
     async def driver(self):
+        bg = None
+        if getattr(self, 'bg_conn', None) is not None:
+            # started as an independent root: its pump/children are not the main session's
+            bg = self.loop.create_task(self.bg_driver())
+            bg.sim_root = bg
+            self.bg_task = bg
+        try:
+            await self._main_session()
+        finally:
+            if bg is not None:
+                if not bg.done():
+                    try:
+                        await bg
+                    except asyncio.CancelledError:
+                        if not bg.cancelled():
+                            raise
+
+    async def _main_session(self):
         try:
             await self.app(self.scope, self.conn.receive, self.conn.send)
         except asyncio.CancelledError:
@@ -444,7 +497,11 @@ class _WsEnv(Env):
 
     def actions(self):
         c = self.h.cfg
-        return self.h.conn.actions(c.get('w_deliver', 2), c.get('w_resolve', 2), c.get('w_ack', 2))
+        acts = self.h.conn.actions(c.get('w_deliver', 2), c.get('w_resolve', 2), c.get('w_ack', 2))
+        bg = getattr(self.h, 'bg_conn', None)
+        if bg is not None:
+            acts = list(acts) + list(bg.actions(2, 2, 2))
+        return acts
 
     def on_quiescent(self):
         return self.h.on_quiescent()
